@@ -1037,9 +1037,10 @@ func FromV3RequestBodyFormData(mediaType *openapi3.MediaType) openapi2.Parameter
 			continue
 		}
 		val := schemaRef.Value
-		typ := val.Type
-		if val.Format == "binary" {
-			typ = &openapi3.Types{"file"}
+		typ, format := val.Type, val.Format
+		if format == "binary" {
+			// a file upload: OpenAPI 2 says it with the type
+			typ, format = &openapi3.Types{"file"}, ""
 		}
 		required := false
 		for _, name := range val.Required {
@@ -1079,7 +1080,7 @@ func FromV3RequestBodyFormData(mediaType *openapi3.MediaType) openapi2.Parameter
 			Minimum:      val.Min,
 			Pattern:      val.Pattern,
 			// CollectionFormat: val.CollectionFormat,
-			// Format:          val.Format,
+			Format:          format,
 			AllowEmptyValue: val.AllowEmptyValue,
 			Required:        required,
 			UniqueItems:     val.UniqueItems,
